@@ -822,6 +822,8 @@ class MergeTreeInterp:
             return None
         if isinstance(s, ast.Delete):
             return None
+        if isinstance(s, ast.Assert):
+            return None          # an assertion does not change the schedule
         raise MTUndecided("statement %s" % type(s).__name__)
 
     def drop(self, slot, node):
